@@ -14,8 +14,10 @@
    (A) [vm_run] -- the explicit-stack state machine of the Go code: a stack of states
        (message / group / map entry, with endGroup, tail, requiredMask as the list of required
        numbers seen), the unrolled 10-byte varint skip and the one/two-byte fast paths for tags
-       and lengths, depth ++/-- on push and pop.  (A) = (B) is checked by execution on every case
-       of family dectot (both are computed, a difference fails the case); it is not proved.
+       and lengths, depth ++/-- on push and pop.  (A) = (B) is proved for whole runs on schema
+       tables without dangling type indices (Msg/ValidateStackRunP.v, vs_stack_eq_recursive) and
+       also checked by execution on every case of family dectot (both are computed, a
+       difference fails the case).
 
    Results: [VOk init quirk rest]
      init   the [initialized] output (every message state closed with all its required fields
@@ -290,7 +292,7 @@ Definition vm_dec_class (slow : bool) (S : schema) (limit : nat) (tid : nat) (bs
 (* ====================================================================================
    (A) the explicit-stack state machine, as written in validate.go.
    Executed next to (B) on every case of family dectot (ocaml/fam_dectot.ml fails the case when
-   the two disagree); the equality (A) = (B) is checked by execution, not proved. *)
+   the two disagree); the equality (A) = (B) on whole runs is proved in Msg/ValidateStackRunP.v. *)
 
 (* validationType *)
 Inductive vm_vtype :=
